@@ -160,25 +160,66 @@ def run_case(sh, s, tier, d, case, only=None, prebuilt=None):
         packtimes = [(-1, p64(u64(tids[0]) - 1))] + [(i, t) for i, t in enumerate(tids)]
         allviews = {}
 
-        def views_from(T):
-            pts = [p64(u64(t) + 1) for t in tids if t >= T] + [maxtid]
+        def views_from(T, refst=None, extra=()):
+            pts = [p64(u64(t) + 1) for t in tids if t >= T] + list(extra) + [maxtid]
             if u64(T) + 1 not in [u64(p) for p in pts]:
                 pts.insert(0, p64(u64(T) + 1))
             out = {}
             for p in pts:
+                if refst is not None:
+                    out[p] = view(refst, p, strong_refs)
+                    continue
                 if p not in allviews:
                     allviews[p] = view(ref, p, strong_refs)
                 out[p] = allviews[p]
             return out
-        for (ti, T) in packtimes:
-            for gc in ((True, False) if kind == 'file' else (True,)):
-                if only is not None and [ti, gc] != list(only):
+        # a transaction committed by "another thread" while the pack is between its lock-free first phase and its final phase
+        # under the commit lock (the harness commits it from a wrapper around the packer's first phase: no lock is held there).
+        # The reference for such a pack is the unpacked file with the same transaction (same explicit id) committed to it.
+        # (its id lies 5 s after the last transaction: later than every pack time tried, as the id of a commit made during a pack is)
+        import time as _t
+        _mt = TimeStamp(tids[-1]).timeTime() + 5.0
+        M_tid = TimeStamp(*_t.gmtime(_mt)[:5] + (_mt % 60,)).raw()
+
+        def commit_M(stg):
+            from ZODB.Connection import TransactionMetaData
+            t = TransactionMetaData()
+            t.description = 'committed while the pack ran'
+            stg.tpc_begin(t, M_tid, ' ')
+            data, serial = stg.load(z64)
+            stg.store(z64, serial, data, '', t)
+            stg.tpc_vote(t)
+            stg.tpc_finish(t)
+        src0, ref0, ref2 = src, ref, None
+        variants = [(ti, T, gc, mid) for (ti, T) in packtimes for gc in ((True, False) if kind == 'file' else (True,))
+                    for mid in ((False, True) if kind == 'file' else (False,))]
+        for (ti, T, gc, mid) in variants:
+            if True:
+                if only is not None and [ti, gc] + ([True] if mid else []) != list(only):
+                    continue
+                if mid and only is None and not (ti == len(tids) - 1 or (s + ti + int(gc)) % 4 == 0):
                     continue
                 if not sh.time_left() and only is None:
                     return trace
                 wit = {'kind': kind, 'pack_after_txn': ti, 'gc': gc, 'trace': trace}
-                c2 = dict(case, only=[ti, gc])
-                before = views_from(T)
+                c2 = dict(case, only=[ti, gc] + ([True] if mid else []))
+                src, ref = src0, ref0
+                if mid:
+                    wit['commit_during_the_pack'] = True
+                    if ref2 is None:
+                        r2 = os.path.join(d, 'r2')
+                        shutil.rmtree(r2, ignore_errors=True)
+                        os.makedirs(r2)
+                        shutil.copy(src0, os.path.join(r2, 'Data.fs'))
+                        tmp = FSM.FileStorage(os.path.join(r2, 'Data.fs'))
+                        commit_M(tmp)
+                        tmp.close()
+                        ref2 = FSM.FileStorage(os.path.join(r2, 'Data.fs'), read_only=True)
+                    src, ref = os.path.join(d, 'r2', 'Data.fs'), ref2
+                    before = views_from(T, ref2, [p64(u64(M_tid) + 1)])
+                    sh.count('packs_with_a_commit_between_their_phases')
+                else:
+                    before = views_from(T)
                 post_before = txn_list(ref, T)
                 ptime = TimeStamp(T).timeTime() + 0.0005
                 # --- pack a copy
@@ -186,10 +227,10 @@ def run_case(sh, s, tier, d, case, only=None, prebuilt=None):
                     w = os.path.join(d, 'w')
                     shutil.rmtree(w, ignore_errors=True)
                     os.makedirs(w)
-                    shutil.copy(src, os.path.join(w, 'Data.fs'))
+                    shutil.copy(src0, os.path.join(w, 'Data.fs'))
                     wpath = os.path.join(w, 'Data.fs')
                     tgt = FSM.FileStorage(wpath, pack_gc=gc)
-                    undolog_before = [x for x in tgt.undoLog(0, -1000)]
+                    undolog_before = [x for x in (ref2 if mid else tgt).undoLog(0, -1000)]
                 else:
                     d2 = os.path.join(d, 'h2')
                     shutil.rmtree(d2, ignore_errors=True)
@@ -199,8 +240,23 @@ def run_case(sh, s, tier, d, case, only=None, prebuilt=None):
                 size_before = tgt.getSize()
                 sh.count('packs')
                 try:
-                    if kind == 'file':
-                        tgt.pack(ptime, referencesf)
+                    if mid:
+                        from ZODB.FileStorage import fspack
+                        orig_phase1 = fspack.FileStoragePacker.copyToPacktime
+                        fired = []
+
+                        def phase1(self_):
+                            r_ = orig_phase1(self_)
+                            fired.append(1)
+                            commit_M(tgt)
+                            return r_
+                        fspack.FileStoragePacker.copyToPacktime = phase1
+                        try:
+                            tgt.pack(ptime, referencesf)
+                        finally:
+                            fspack.FileStoragePacker.copyToPacktime = orig_phase1
+                        if not fired:
+                            commit_M(tgt)           # the pack did not get that far (nothing to do): the commit simply follows it
                     else:
                         tgt.pack(ptime, referencesf)
                 except Exception as e:
@@ -331,9 +387,12 @@ def run_case(sh, s, tier, d, case, only=None, prebuilt=None):
                                     what = 'earlier-time-drops-only-records-of-objects-unreachable-at-that-time'
                             sh.violation('c07:file:second-pack-%s' % what, dict(wit, sizes=(len(b1), len(b2))), c2)
                             break
-                sh.case(digest(s, ti, gc) if freed and post_before else None)
+                sh.case(digest(s, ti, gc, mid) if freed and post_before else None)
     finally:
         try:
+            if ref2 is not None:
+                ref2.close()
+            ref = ref0
             ref.close()
         except Exception:
             pass
